@@ -57,6 +57,7 @@ def run(ctx):
     signs = [l for l in lines if l.get("kind") == "case" and l.get("wire") is not None]
     inconclusive = [l for l in lines if l.get("kind") == "case" and l.get("wire") is None]
     errors = [l for l in lines if l.get("kind") == "error"]
+    pendings = [l for l in lines if l.get("kind") == "pending"]
 
     new, seen = 0, set()
 
@@ -99,6 +100,20 @@ def run(ctx):
         if lv["failed"] and not overloaded:
             report("request-failed-around-renewal", "%d of %d requests issued while tokens were renewed failed: %s" % (lv["failed"], lv["requests"], lv["errors"]),
                    {"observation": lv}, "schedharness c16 live")
+    # oracle (2b): a request that fails early must not leave the channel counting it as pending
+    for pd in pendings:
+        how = "schedharness c16 pending (request with a context that is already done, then Renew, then a request)"
+        if not pd["renew_done"]:
+            report("renewal-never-completes-after-failed-request", "after a request with an already cancelled context (result: %s) a token renewal did not complete within %.0f ms" % (
+                pd["first_request_result"], pd["renew_ms"]), {"observation": pd}, how)
+        if not pd["request_done"]:
+            report("request-hangs-behind-stuck-renewal", "a request with a timeout of %d ms issued after that renewal did not return within %.0f ms" % (
+                pd["request_timeout_ms"], pd["request_ms"]), {"observation": pd}, how)
+        elif pd["request_result"]:
+            report("request-failed-around-renewal", "the request issued after the renewal failed: %s" % pd["request_result"], {"observation": pd}, how)
+        w = [x[0] for x in pd.get("wire") or []]
+        if any(w[i + 1] != c11.next_seq(w[i]) for i in range(len(w) - 1)):
+            report("sequence-numbers-not-consecutive", "wire %s" % w, {"observation": pd}, how)
     # oracle (3): requests around a renewal on a signed channel
     for c in signs:
         bad = {k: v for k, v in c["results"].items() if v != "ok"}
@@ -138,9 +153,9 @@ def run(ctx):
 
     gaps_all = {str(lv["lifetime_ms"]): [round(lv["opn_at_ms"][i + 1] - lv["opn_at_ms"][i], 1) for i in range(len(lv["opn_at_ms"]) - 1)] for lv in lives}
     ctx.coverage.update({
-        "evaluations": len(delays) + len(signs) + len(lives),
+        "evaluations": len(delays) + len(signs) + len(lives) + len(pendings),
         "distinct_nontrivial": len({d["lifetime_ns"] for d in delays}) + len(signs) + len(lives),
-        "rule": "renewal delay of the real code (uasc.renewalDelay via hook) for boundary lifetimes (1 ms .. 2^32-1 ms, the old truncation boundaries 1.333 s / 2 s / 2.667 s / 4 s, odd nanosecond values) + seeded random lifetimes, compared with go_renewalDelay inside Coq; live channels with lifetimes 400 ms and 1000 ms renewing for 1.9 s under a continuous request load, and with the server's clock 500 ms ahead / 400 ms behind (createdAt shifted, lifetime 1000 ms), and behind a server that revises the requested lifetime down (60 s -> 1 s) and up (1 s -> 4 s); the former renewal-window schedule (the renewal is now held back) and a renewal between two requests forced on a Basic256Sha256/Sign channel",
+        "rule": "renewal delay of the real code (uasc.renewalDelay via hook) for boundary lifetimes (1 ms .. 2^32-1 ms, the old truncation boundaries 1.333 s / 2 s / 2.667 s / 4 s, odd nanosecond values) + seeded random lifetimes, compared with go_renewalDelay inside Coq; live channels with lifetimes 400 ms and 1000 ms renewing for 1.9 s under a continuous request load, and with the server's clock 500 ms ahead / 400 ms behind (createdAt shifted, lifetime 1000 ms), a request with an already cancelled context followed by a renewal and a request; and behind a server that revises the requested lifetime down (60 s -> 1 s) and up (1 s -> 4 s); the former renewal-window schedule (the renewal is now held back) and a renewal between two requests forced on a Basic256Sha256/Sign channel",
         "samples": delays[:2] + [{"live": lv["lifetime_ms"], "opn_at_ms": lv["opn_at_ms"]} for lv in lives] + [{"scenario": c["scenario"], "results": c["results"], "server_errors": c.get("server_errors")} for c in signs],
         "renewal_gaps_ms": gaps_all,
         "inconclusive": len(inconclusive),
